@@ -1,6 +1,6 @@
 (* C10 - directory operations keep the namespace exact: the proved part is what ext2fs_link and
    ext2fs_unlink do to the records of one directory block *)
-From E2V Require Import DirBlock.DirBlock DirBlock.DirBlockProofs DirBlock.DxSearch DirBlock.DxSearchProofs.
+From E2V Require Import DirBlock.DirBlock DirBlock.DirBlockProofs DirBlock.DxSearch DirBlock.DxSearchProofs DirBlock.Nlink DirBlock.NlinkProofs.
 Local Open Scope N_scope.
 
 (* link: the records still tile the block exactly, the live entries are the old ones plus exactly the
@@ -45,3 +45,25 @@ Example htree_boundary : dx_search [0; 100; 200; 300] 200 = 2%nat /\ dx_search [
   dx_search [0; 100; 200; 300] 5 = 0%nat /\ dx_search [0] 77 = 0%nat /\
   dx_leaf [(0, 1); (100, 7); (200, 9)] [(7, [(0, 3); (150, 4)])] 160 = 4.
 Proof. vm_compute. repeat split; reflexivity. Qed.
+
+(* link counts: after any number k of sub-directories made in a directory, its stored count is what pass 4 expects of
+   2 + k links - also past EXT2_LINK_MAX, where the count becomes 1 (dir_nlink) ... *)
+Theorem mkdir_link_count_dir_nlink : forall k,
+  mkdirs (mkdir_parent true) k 2 = Some (expected (2 + N.of_nat k)).
+Proof. intro k. change 2 with (expected 2) at 1. apply mkdirs_dir_nlink. lia. Qed.
+Print Assumptions mkdir_link_count_dir_nlink.
+
+(* ... and without dir_nlink the request that does not fit is refused: a count that was written is the number of links *)
+Theorem mkdir_link_count_plain : forall k n,
+  mkdirs (mkdir_parent false) k 2 = Some n -> n = 2 + N.of_nat k /\ n = expected n.
+Proof.
+  intros k n H. destruct (mkdirs_plain k 2 n ltac:(lia) ltac:(unfold LINK_MAX; lia) H) as [A B].
+  split; [assumption|]. unfold expected. destruct (LINK_MAX <? n) eqn:E; [apply N.ltb_lt in E; lia|reflexivity].
+Qed.
+Print Assumptions mkdir_link_count_plain.
+
+(* the code before the repair (an unconditional increment): the 64999th sub-directory leaves 65001 where 1 is expected *)
+Theorem mkdir_link_count_old_refuted :
+  exists k n, mkdirs mkdir_parent_old k 2 = Some n /\ n <> expected (2 + N.of_nat k).
+Proof. exists (N.to_nat 64999), 65001. split; [exact (proj1 old_refuted)|]. vm_compute. discriminate. Qed.
+Print Assumptions mkdir_link_count_old_refuted.
